@@ -105,11 +105,59 @@ type node struct {
 	idx    int
 	proc   *dkg.Process
 	store  *dkg.BoltStore
+	gate   *gateStore
 	client *recClient
 	outCh  chan dkg.SharingOutput
 	fan    *util.FanOutChan[dkg.SharingOutput]
 	steps  []*stepRec
 	init0  storeProj // the store at the start of the trace (model initial store)
+}
+
+// gateStore is the Store handed to the real process: the real BoltStore, plus (i) a log of every
+// state the process persists and (ii) a gate that can hold ONE GetCurrent call after it has read the
+// store, so that the engine can deliver another operation inside a command's load/save window.
+type gateStore struct {
+	*dkg.BoltStore
+	mu      sync.Mutex
+	armed   bool
+	entered chan struct{}
+	release chan struct{}
+	saved   []string
+}
+
+func (g *gateStore) arm() { g.mu.Lock(); g.armed = true; g.mu.Unlock() }
+
+func (g *gateStore) GetCurrent(beaconID string) (*dkg.DBState, error) {
+	st, err := g.BoltStore.GetCurrent(beaconID)
+	g.mu.Lock()
+	held := g.armed
+	g.armed = false
+	g.mu.Unlock()
+	if held {
+		g.entered <- struct{}{}
+		<-g.release
+	}
+	return st, err
+}
+
+func (g *gateStore) SaveCurrent(beaconID string, st *dkg.DBState) error {
+	g.mu.Lock()
+	g.saved = append(g.saved, st.State.String())
+	g.mu.Unlock()
+	return g.BoltStore.SaveCurrent(beaconID, st)
+}
+
+func (g *gateStore) SaveFinished(beaconID string, st *dkg.DBState) error {
+	g.mu.Lock()
+	g.saved = append(g.saved, st.State.String())
+	g.mu.Unlock()
+	return g.BoltStore.SaveFinished(beaconID, st)
+}
+
+func (g *gateStore) savedSince(k int) []string {
+	g.mu.Lock()
+	defer g.mu.Unlock()
+	return append([]string{}, g.saved[k:]...)
 }
 
 type world struct {
@@ -133,7 +181,7 @@ func newWorld(nNodes, nExtra int, grace, phase time.Duration, tmp string, hid in
 	}
 	w.dir = dir
 	for i := 0; i < nNodes+nExtra; i++ {
-		id, err := newIdent(fmt.Sprintf("127.0.0.1:%d", 8000+i), sch, fmt.Sprintf("n%d", i))
+		id, err := newIdent(fmt.Sprintf("node%d.drand.test:%d", i, 8000+i), sch, fmt.Sprintf("n%d", i))
 		if err != nil {
 			return nil, err
 		}
@@ -147,8 +195,9 @@ func newWorld(nNodes, nExtra int, grace, phase time.Duration, tmp string, hid in
 		cl := &recClient{w: w}
 		fan := util.NewFanOutChan[dkg.SharingOutput]()
 		conf := dkg.Config{Timeout: time.Minute, TimeBetweenDKGPhases: phase, KickoffGracePeriod: grace}
-		p := dkg.NewDKGProcess(st, stubBeacon{w.ids[i].kp}, fan, cl, nil, conf, discardLogger)
-		n := &node{id: w.ids[i], idx: i, proc: p, store: st, client: cl, fan: fan, outCh: fan.Listen()}
+		gs := &gateStore{BoltStore: st, entered: make(chan struct{}, 1), release: make(chan struct{})}
+		p := dkg.NewDKGProcess(gs, stubBeacon{w.ids[i].kp}, fan, cl, nil, conf, discardLogger)
+		n := &node{id: w.ids[i], idx: i, proc: p, store: st, gate: gs, client: cl, fan: fan, outCh: fan.Listen()}
 		w.nodes = append(w.nodes, n)
 		w.byAddr[w.ids[i].part.Address] = n
 	}
